@@ -99,11 +99,15 @@ inductive FailReason where
   | channelClosed | onChainTimeout
   deriving DecidableEq, Repr, Inhabited
 
--- mirrors the stale branch of the channel loop: dropped_outbound_htlcs, then every source of inflight_htlc_sources() that no
--- entry of the monitor carries
+/-- `monitor.get_all_current_outbound_htlcs().contains_key(&source)` / the `found_htlc` search: some entry of the monitor copy has this source -/
+def ChanW.monLists (c : ChanW) (s : Src) : Bool := c.monHtlcs.any (fun h => h.src == s)
+
+-- mirrors the stale branch of the channel loop: the dropped_outbound_htlcs that pass the (GENERATED) droppedHtlcFailed test, then every
+-- source of inflight_htlc_sources() that no entry of the monitor carries (GENERATED staleHtlcFailed)
 def staleFailsOf (c : ChanW) : List (Src × FailReason) :=
   if c.stale then
-    (c.mgrDropped ++ c.mgrPending.filter (fun s => staleHtlcFailed (c.monHtlcs.any (fun h => h.src == s)))).map (fun s => (s, .channelClosed))
+    (c.mgrDropped.filter (fun s => droppedHtlcFailed (c.monLists s)) ++
+     c.mgrPending.filter (fun s => staleHtlcFailed (c.monLists s))).map (fun s => (s, .channelClosed))
   else []
 
 -- mirrors the get_onchain_failed_outbound_htlcs loop of the closed-channel block
